@@ -115,7 +115,8 @@ def preload(workdir) -> None:
 
 def run_history(args) -> dict:
     """Executed in a forked child: one fresh interpreter state per history."""
-    beh, workdir, solo = args
+    beh, workdir, solo = args[:3]
+    exec_timeout = args[3] if len(args) > 3 else 3
     from pynguin.utils import randomness  # noqa: PLC0415
 
     from harness.adapters import pyn  # noqa: PLC0415
@@ -137,7 +138,7 @@ def run_history(args) -> dict:
         sp = PRELOADED["sp"]
     else:
         sp, _ = pyn.load_sut(mod, wd)
-    executor = pyn.make_executor(sp, 3)
+    executor = pyn.make_executor(sp, exec_timeout)
     base = {"stdout": sys.stdout, "stderr": sys.stderr, "log": logging.root.manager.disable,
             "rng": randomness.RNG.getstate()}
     evs = []
